@@ -515,13 +515,23 @@ func verifH_CreditReturn() {
 	verifDrain()
 	verifAssert(err == nil && len(hl.calls) == 1 && hl.readErr == nil, "C01.srv-request-readable")
 	nupd := 0
+	closed := false
 	for _, f := range car.sent {
+		if f.StreamId == 4 {
+			// the close frame is the last frame of a stream the handler ended: nothing - no
+			// late window update either - follows it
+			verifAssert(!closed, "C13.srv-close-is-the-last-frame-of-the-stream")
+			if _, isClose := vCloseCode(f); isClose {
+				closed = true
+			}
+		}
 		if u, ok := f.Frame.(*tunnelpb.ServerToClient_WindowUpdate); ok {
 			nupd++
 			verifAssert(f.StreamId == 4, "C05+C13.srv-credit-for-the-same-stream")
 			verifAssert(int(u.WindowUpdate) == len(w), "C05+C06.srv-credit-equals-bytes-read")
 		}
 	}
+	verifAssert(closed, "C13.srv-stream-gets-its-close-frame")
 	if rev0 {
 		verifCover("srv-rev0")
 		verifAssert(nupd == 0, "C11+C13.no-window-update-on-a-revision-zero-stream")
